@@ -10,6 +10,10 @@ namespace EaselModel.Dist
 /-- libm `erfc` (the C code of `esl_normal.c` calls exactly this symbol). -/
 @[extern "erfc"] opaque erfcFloat : Float → Float
 
+/-- libm `log1p`, `expm1` (Lean's `Float` has no binding for them; same symbols the C code calls) -/
+@[extern "log1p"] opaque log1pFloat : Float → Float
+@[extern "expm1"] opaque expm1Float : Float → Float
+
 def floatInf : Float := 1.0 / 0.0
 
 /-- Hand model (kind H) of `esl_stats_erfc` (the Sun/FreeBSD `erfc`, which `esl_normal.c` uses when `HAVE_ERFC` is not
@@ -59,6 +63,8 @@ def erfcSun (x : Float) : Float :=
 instance : Num Float where
   exp := Float.exp
   log := Float.log
+  log1p := log1pFloat
+  expm1 := expm1Float
   pow := Float.pow
   sqrt := Float.sqrt
   floor := Float.floor
